@@ -407,7 +407,7 @@ func lexTaskCommands(l *Lexer) lexFn {
 			// If there's a newline, might be more commands on the next line
 			l.backup()
 			// With CRLF line endings the carriage return is part of the line ending, not of the command
-			if strings.HasSuffix(l.all(), "\r") {
+			for strings.HasSuffix(l.all(), "\r") {
 				l.pos--
 			}
 			l.emit(token.COMMAND)
@@ -424,6 +424,11 @@ func lexTaskCommands(l *Lexer) lexFn {
 			l.backup()
 			// The command may end in a space which we should clean up
 			if strings.HasSuffix(l.all(), " ") {
+				l.pos--
+			}
+			// Nor should it end in a carriage return, which would read back as part of a CRLF
+			// line ending once the command is written out on a line of it's own
+			for strings.HasSuffix(l.all(), "\r") {
 				l.pos--
 			}
 			if len(l.all()) != 0 {
